@@ -492,7 +492,7 @@ def c17_stage(out, tier, seed):
 # ---------------------------------------------------------------------------------------
 # C14 — wall-clock part: given >= 200 ms, the move arrives before the clock runs out
 
-def c14_timed(binary, pos, clock_ms, inc_ms, mtg, white, one_sided=False):
+def c14_timed(binary, pos, clock_ms, inc_ms, mtg, white, one_sided=False, with_depth=0):
     e = Engine(binary)
     r = {"verdict": "held"}
     try:
@@ -506,6 +506,9 @@ def c14_timed(binary, pos, clock_ms, inc_ms, mtg, white, one_sided=False):
             go = f"go {c}time {clock_ms}" + (f" {c}inc {inc_ms}" if inc_ms else "") + (f" movestogo {mtg}" if mtg else "")
         else:
             go = f"go wtime {clock_ms} btime {clock_ms} winc {inc_ms} binc {inc_ms}" + (f" movestogo {mtg}" if mtg else "")
+        if with_depth:
+            # a depth cap the search cannot reach in time, configured alongside the clock: the clock still binds
+            go = (go + " depth 60") if with_depth == 1 else go.replace("go ", "go depth 60 ", 1)
         cpu0 = e.cpu_ns()
         t0 = now()
         n = e.n_out()
@@ -571,17 +574,21 @@ def c14_stage(out, tier, seed):
     margins = []
 
     one_sided_cases = {id(c) for k, c in enumerate(cases) if k % 5 == 2}
+    depth_cases = {id(c): 1 + (k // 5) % 2 for k, c in enumerate(cases) if k % 5 == 4}
 
     def work(c):
         pos, clock, inc, mtg = c
         one = id(c) in one_sided_cases
-        r = c14_timed(binary, pos, clock, inc, mtg, True, one_sided=one)
+        wd = depth_cases.get(id(c), 0)
+        r = c14_timed(binary, pos, clock, inc, mtg, True, one_sided=one, with_depth=wd)
         if r["verdict"] == "inconclusive":
             # retry once, serially is not needed: a second sample under whatever load there is
-            r = c14_timed(binary, pos, clock, inc, mtg, True, one_sided=one)
+            r = c14_timed(binary, pos, clock, inc, mtg, True, one_sided=one, with_depth=wd)
         with lock:
             out.evaluations += 1
             out.features["timed_searches"] = out.features.get("timed_searches", 0) + 1
+            if wd:
+                out.features["timed_searches_with_a_depth_cap_next_to_the_clock"] = out.features.get("timed_searches_with_a_depth_cap_next_to_the_clock", 0) + 1
             if one:
                 out.features["timed_searches_with_only_the_movers_clock"] = out.features.get("timed_searches_with_only_the_movers_clock", 0) + 1
             if clock == 200:
@@ -1104,7 +1111,7 @@ def c08_stage(out, tier, seed):
         plan = []
         for _ in range(rng.randint(4, 10)):
             pos = rng.choice(mates) if rng.random() < 0.35 else rng.choice(positions)
-            plan.append((pos, rng.choice([1, 3, 5, 6, 7, 8] if pos in mates else [1, 2, 4, 5, 6]), rng.random() < 0.15))
+            plan.append((pos, rng.choice([1, 3, 5, 6, 7, 8] if pos in mates else [0, 1, 2, 4, 5, 6]), rng.random() < 0.15))
         sessions.append((bins[i % len(bins)], plan))
     # the longest lines: simple endings searched to depth 26..60 report lines of 30..45 plies (info lines of 250..330
     # bytes); every one of them is replayed move by move like the short ones
